@@ -82,7 +82,16 @@ def evaluate(steps, M, N, dim, dt=2e-15):
     unwrapped = np.concatenate([x0[None], x0[None] + np.cumsum(st, axis=0)], axis=0)  # (T, N, 3)
     wrapped = np.mod(unwrapped, 1)
     wrapped[wrapped == 1] = 0
-    traj = concretise.make_trajectory(wrapped, ['Li'] * N, M, time_step=dt)
+    variant = int(abs(st).sum() * 1000) % 3
+    if variant == 1:
+        # constructed from displacements (as apply_drift_correction does)
+        disp = np.concatenate([np.zeros((1, N, 3)), st], axis=0)
+        traj = concretise.make_trajectory(disp, ['Li'] * N, M, time_step=dt, coords_are_displacement=True, base_positions=x0.copy())
+    elif variant == 2:
+        # raw, unwrapped input whose first frame lies outside the cell
+        traj = concretise.make_trajectory(unwrapped + np.array([1.0, -2.0, 3.0]), ['Li'] * N, M, time_step=dt)
+    else:
+        traj = concretise.make_trajectory(wrapped, ['Li'] * N, M, time_step=dt)
     viols = []
     r = unwrapped @ M
     own = np.zeros((N, T))
